@@ -131,8 +131,7 @@ def check_c01(ctx):
     found_schedule = False
     import json as _json
     try:
-        info = _json.loads(ctx.coverage.get('extraction', '{}'))['info']['Orders.lean']
-        orders = info['orders']
+        orders = ctx.extract_info['Orders.lean']['orders']
     except Exception:
         orders = None
     if orders and all(v in ('relaxed', 'acquire', 'release') for v in orders.values()):
